@@ -50,6 +50,24 @@ func (g *Gen) randomInstrs(s schema, maxN int, filtered bool) []Instr {
 	k := 1 + g.rng.Intn(maxN)
 	ins := []Instr{}
 	newNames := []string{"N1", "N2", "N3"}
+	if !filtered && g.rng.Intn(6) == 0 {
+		// a column copy followed by an update of the copy from itself: the copy shares storage with its source
+		src := g.oneOf(names)
+		if fs := fnsFor(1, fnType(typs[src])); len(fs) > 0 {
+			same := []string{}
+			for _, f := range fs {
+				if fnReg[f].ResT == fnType(typs[src]) && typs[src] != "enum" {
+					same = append(same, f)
+				}
+			}
+			if len(same) > 0 {
+				ins = append(ins, Instr{Fn: FnRef{K: "col", V: &Val{T: "col", S: toBS(src)}}, Dst: toBS("N1")},
+					Instr{Fn: FnRef{K: "fn1", Sym: g.oneOf(same)}, Dst: toBS("N1"), Src1: toBS("N1")})
+				names = append(names, "N1")
+				typs["N1"] = typs[src]
+			}
+		}
+	}
 	for i := 0; i < k; i++ {
 		dst := g.oneOf(newNames)
 		if g.rng.Intn(3) == 0 {
@@ -121,7 +139,7 @@ func (g *Gen) randomInstrs(s schema, maxN int, filtered bool) []Instr {
 func genC06(g *Gen) {
 	colsets := []string{"ABF", "FGT", "TUS", "SRE", "ABCFGTUSR", "EXA", "SB"}
 	sizes := []int{0, 1, 2, 3, 5, 8, 13, 30, 80}
-	for rep := 0; rep < g.pick(100, 3000); rep++ {
+	for rep := 0; rep < g.pick(400, 4000); rep++ {
 		n := sizes[g.rng.Intn(g.pick(8, len(sizes)))]
 		g.begin("apply")
 		f := g.do(g.stdNew(n, colsets[g.rng.Intn(len(colsets))], 12))
